@@ -374,3 +374,6 @@ HARNESSES = [
 ]
 ASSUMPTIONS = ["'all argument values' is not claimed: JSON text is a stub, argument values are concrete representatives; names, ids, priorities and every parameter leaf are symbolic",
                "cron strings, tz-aware datetimes and custom Config overrides are outside the claim"]
+
+from engine.harness import borrowed  # noqa: E402
+HARNESSES.append(borrowed("c11", "H11-worker-redis", "H07-redis-topic-prefix"))   # a name that extends another survives the Redis short-name filter
